@@ -16,7 +16,7 @@ import (
 func init() {
 	register(&propDef{
 		id:      "C04",
-		explain: "Structural necessary conditions of 'a client call returns the response to its own request': (R1) in the transport's RoundTrip a connection obtained from AcquireConn is, on every path, closed, released to the pool, or handed to the stream-close closure exactly once; (R2) it is released to the pool only on paths where the response was read without error; (R3) inside the stream-close closure the connection is pooled only under a condition that depends on the body having been read to its end (and on the close decision and the caller's error); (R4) in the pipelining client a work item is given back to the pool by the caller only when it was never queued or its completion was received - never after a timeout while the connection goroutines still hold it; the pipeline writer hands every request it wrote either to the reader queue or completes it with an error and stops; (R5) response-header fields that closure consults live and that the transport did not also capture when it built the closure (recomputed on every run; none on today's tree, where the stream remembers its declared length and the close flag is captured) are never reset before the body stream of the same Response is closed, in any function of the module. Not decided: interleavings, slow or partial servers, byte-level framing of responses (C03's mirror).",
+		explain: "Structural necessary conditions of 'a client call returns the response to its own request': (R1) in the transport's RoundTrip a connection obtained from AcquireConn is, on every path, closed, released to the pool, or handed to the stream-close closure exactly once; (R2) it is released to the pool only on paths where the response was read without error; (R3) inside the stream-close closure the connection is pooled only under a condition that depends on the body having been read to its end (and on the close decision and the caller's error); (R4) in the pipelining client a work item is given back to the pool by the caller only when it was never queued or its completion was received - never after a timeout while the connection goroutines still hold it; the pipeline writer hands every request it wrote either to the reader queue or completes it with an error and stops; (R5) response-header fields that closure consults live and that the transport did not also capture when it built the closure (recomputed on every run; none on today's tree, where the stream remembers its declared length and the close flag is captured) are never reset before the body stream of the same Response is closed, in any function of the module; (R6) the connection's buffered reader is returned to its pool by RoundTrip itself exactly on the paths on which no body stream reading through it is handed to the caller (there the stream-close callback returns it); (R7) every client function that reads a response off a connection for a request has consulted the request's IsHead() on every path to that read and stores SkipBody = true under it - a HEAD response announces a length but carries no body, and reading one would take the next response's bytes for it. Not decided: interleavings, slow or partial servers, byte-level framing of responses (C03's mirror).",
 		run:     runC04,
 	})
 	register(&propDef{
@@ -69,6 +69,9 @@ func runC04(p *Prog, r *Report) {
 			nret, bad, nrel, badRel := 0, 0, 0, 0
 			var wit, witRel []string
 			detail := ""
+			nrd, badRd := 0, 0
+			var witRd []string
+			detailRd := ""
 			x := NewExplorer(p, rt, Hooks{
 				Instr: func(x *Explorer, st *State, in ssa.Instruction) {
 					switch w := in.(type) {
@@ -93,7 +96,18 @@ func runC04(p *Prog, r *Report) {
 						for _, b := range w.Bindings {
 							if b == ccVal || holdsVar(b, ccVal) {
 								st.N[0]++ // ownership moves to the stream-close closure
+								st.Set(2) // ... and with it the reader the handed-out stream reads through
 							}
+						}
+					}
+					// the buffered reader of the connection: N[2] counts its releases in this frame
+					if cv, ok := in.(*ssa.Call); ok {
+						if f := cv.Call.StaticCallee(); f != nil && f.Name() == "AcquireReader" && recvTypeName(f) == "HostClient" {
+							st.Set(4)
+							st.N[2] = 0
+						}
+						if f := cv.Call.StaticCallee(); f != nil && f.Name() == "ReleaseReader" && recvTypeName(f) == "HostClient" {
+							st.N[2]++
 						}
 					}
 				},
@@ -113,6 +127,21 @@ func runC04(p *Prog, r *Report) {
 							detail = fmt.Sprintf("disposals on this path: %d, expected %d", st.N[0], want)
 						}
 					}
+					// R6: the reader goes back to its pool in this frame exactly when no stream that reads through it was handed out
+					if st.Has(4) {
+						nrd++
+						wantRd := int8(1)
+						if st.Has(2) {
+							wantRd = 0
+						}
+						if st.N[2] != wantRd {
+							badRd++
+							if witRd == nil {
+								witRd = x.Path(st)
+								detailRd = fmt.Sprintf("ReleaseReader calls in RoundTrip's own frame on this path: %d, expected %d (stream handed out: %v)", st.N[2], wantRd, st.Has(2))
+							}
+						}
+					}
 				},
 			})
 			x.Filter = noIntFilter
@@ -123,6 +152,8 @@ func runC04(p *Prog, r *Report) {
 			x.Run(nil)
 			r.Check("R1", "RoundTrip: the acquired connection is closed, pooled or handed to the stream closer exactly once on every path", bad == 0 && nret > 0, p.Pos(acqCall.Pos()),
 				fmt.Sprintf("%d of %d explored returns violate it (%s): a leaked connection keeps a pool slot forever, a double disposal lets two requests share one connection", bad, nret, detail), wit...)
+			r.Check("R6", "RoundTrip: the connection's buffered reader is given back in this frame exactly when no body stream reading through it was handed to the caller", badRd == 0 && nrd > 0, p.Pos(acqCall.Pos()),
+				fmt.Sprintf("%d of %d explored returns violate it (%s): a reader that is pooled while a streamed body still reads through it is reset onto another connection by the next request, which then feeds its response bytes to the first caller", badRd, nrd, detailRd), witRd...)
 			r.Check("R2", "RoundTrip: the connection goes back to the pool only when the response was read without error", badRel == 0 && nrel > 0, p.Pos(readCall.Pos()),
 				fmt.Sprintf("%d of %d explored ReleaseConn arrivals are on paths where the error of ReadLimitBody is not known to be nil: a connection with a half-read response would serve the next request", badRel, nrel), witRel...)
 			// R3: the closure
@@ -167,6 +198,7 @@ func runC04(p *Prog, r *Report) {
 			}
 		}
 	}
+	headSkipsBodyRule(p, r)
 	// R4a: pipelineWork typestate in the callers
 	runPipelineCaller(p, r, "C04")
 	// R4b: the writer
@@ -1071,4 +1103,73 @@ func timerArmedWithCheckedDuration(p *Prog, r *Report) {
 		})
 	}
 	r.Floor("R3", "timer-arming acquisitions in deadline calls", n, 1)
+}
+
+// headSkipsBodyRule (C04.R7): see the explanation text.
+func headSkipsBodyRule(p *Prog, r *Report) {
+	n := 0
+	for _, fn := range p.funcsIn("") {
+		file := p.Fset.Position(fn.Pos()).Filename
+		if !strings.HasSuffix(file, "client.go") {
+			continue
+		}
+		var reads []*ssa.Call
+		allCalls(fn, func(b *ssa.BasicBlock, c ssa.CallInstruction) {
+			cv, ok := c.(*ssa.Call)
+			f := c.Common().StaticCallee()
+			if !ok || f == nil || recvTypeName(f) != "Response" || !(f.Name() == "Read" || f.Name() == "ReadLimitBody") {
+				return
+			}
+			for _, a := range c.Common().Args {
+				if strings.HasSuffix(a.Type().String(), "bufio.Reader") {
+					reads = append(reads, cv)
+				}
+			}
+		})
+		for _, rd := range reads {
+			n++
+			isHeadTest := func(i ssa.Instruction) bool {
+				if st, ok := i.(*ssa.Store); ok { // the body is skipped anyway (the caller asked for it)
+					if _, fv := fieldOfAddr(st.Addr); fv != nil && fv.Name() == "SkipBody" {
+						if c, isC := st.Val.(*ssa.Const); isC && c.Value != nil && c.Value.ExactString() == "true" {
+							return true
+						}
+					}
+				}
+				iff, ok := i.(*ssa.If)
+				return ok && hasAtomContaining(condAtoms(iff.Cond), "IsHead")
+			}
+			hit, path := reachAvoiding(fn, nil, func(i ssa.Instruction) bool { return i == ssa.Instruction(rd) }, isHeadTest, nil)
+			// a store of true to Response.SkipBody guarded by that test
+			stores := false
+			for _, b := range fn.Blocks {
+				for _, in := range b.Instrs {
+					st, ok := in.(*ssa.Store)
+					if !ok {
+						continue
+					}
+					if _, fv := fieldOfAddr(st.Addr); fv == nil || fv.Name() != "SkipBody" {
+						continue
+					}
+					if c, isC := st.Val.(*ssa.Const); !isC || c.Value == nil || c.Value.ExactString() != "true" {
+						continue
+					}
+					for _, g := range guardsOf(b) {
+						if strings.Contains(g.Atom, "IsHead") {
+							stores = true
+						}
+					}
+					// 'if custom || IsHead()': the block is entered from the branch that tested IsHead
+					for _, pr := range b.Preds {
+						if iff, ok := pr.Instrs[len(pr.Instrs)-1].(*ssa.If); ok && pr.Succs[0] == b && hasAtomContaining(condAtoms(iff.Cond), "IsHead") {
+							stores = true
+						}
+					}
+				}
+			}
+			r.Check("R7", fmt.Sprintf("%s: the request's IsHead() is consulted before the response is read, and SkipBody is set under it", funcName(fn)), hit == nil && stores, p.Pos(rd.Pos()),
+				"a response is read without the reader having been told that the request was a HEAD: a HEAD response with a Content-Length makes it take the following response's bytes for a body, and the caller gets them with a nil error", blocksString(p, path)...)
+		}
+	}
+	r.Floor("R7", "response reads in the client", n, 2)
 }
